@@ -75,6 +75,44 @@ func c06Scenarios(tier string) []*Scenario {
 			}
 		}
 	}
+	// a project shutdown that finds a process without a live command - waiting out its restart back-off, or
+	// pending on a dependency that still runs: nothing of it is launched afterwards, nothing is left alive
+	for _, phase := range []string{"backoff", "pending"} {
+		for _, ordered := range []bool{false, true} {
+			phase, ordered := phase, ordered
+			sc := &Scenario{ID: fmt.Sprintf("c06-shutdown-in-%s-ordered%v", phase, ordered), K: 1, TickBudget: 3, Idle: 25 * time.Second, Ordered: ordered}
+			var when func(w *World) bool
+			if phase == "backoff" {
+				sc.YAML = projectYAML(nil, PC{Name: "a", Restart: "always", Backoff: 2}, PC{Name: "x"})
+				sc.Procs = map[string]*ProcScript{"a": {Launches: [][]Action{{Exit(1)}, {}}}, "x": {}}
+				when = func(w *World) bool { return w.lastStat["a"] == "Restarting" }
+			} else {
+				sc.YAML = projectYAML(nil, PC{Name: "d"}, PC{Name: "a", Deps: map[string]string{"d": cCompleted}})
+				sc.Procs = map[string]*ProcScript{"d": {}, "a": {}}
+				when = func(w *World) bool { return w.launches["d#0"] > 0 }
+			}
+			sc.API = [][]APICall{{{Op: "shutdown", When: when}}}
+			sc.Check = func(w *World) []Violation {
+				var vs []Violation
+				tr := w.pre()
+				ret := findEvent(tr, 0, func(e Event) bool { return e.Kind == "api-ret" })
+				if ret < 0 {
+					return nil
+				}
+				for i := ret; i < len(tr); i++ {
+					if tr[i].Kind == "start" {
+						vs = append(vs, viol("C06", "launched-after-shutdown:"+phase, "%s was launched after the project shutdown had returned (it was %s when the shutdown arrived)", tr[i].Proc, phase))
+						break
+					}
+				}
+				if len(tr[ret].Alive) > 0 {
+					vs = append(vs, viol("C06", "alive-after-shutdown:"+phase, "commands alive when the project shutdown returned: %v", tr[ret].Alive))
+				}
+				return vs
+			}
+			scs = append(scs, sc)
+		}
+	}
 	return scs
 }
 
